@@ -95,6 +95,10 @@ partial def parseStmt : List String → Option (Stmt × List String)
       let (t, r2) ← parseStmt r1
       let (e, r3) ← parseStmt r2
       pure (.ite c t e, r3)
+  | "loop" :: r => do
+      let (c, r1) ← parseExpr r
+      let (b, r2) ← parseStmt r1
+      pure (.loop c b, r2)
   | "setloc" :: v :: r => do let k ← v.toNat?; let (e, r1) ← parseExpr r; pure (.setLoc k e, r1)
   | "setfld" :: f :: r => do let k ← f.toNat?; let (e, r1) ← parseExpr r; pure (.setFld k e, r1)
   | "setarg" :: r => do let (e, r1) ← parseExpr r; pure (.setArg e, r1)
